@@ -1559,6 +1559,9 @@ static void run_level(ScenState &S)
           int st = 0;
           Res r2 = parse_res(run_child(S.sc, r.choices, false, &st), st);
           same = r2.code == r.code && r2.sig == r.sig && r2.events == r.events && r2.choices == r.choices;
+          if (!same)
+            fprintf(stderr, "replay mismatch: code %d/%d sig [%s]/[%s] events [%s]/[%s] choices [%s]/[%s]\n", r.code, r2.code, r.sig.c_str(), r2.sig.c_str(),
+                r.events.c_str(), r2.events.c_str(), enc_choices(r.choices).c_str(), enc_choices(r2.choices).c_str());
         }
         if (!same) {
           printf("@INTERNAL nondeterministic replay of a failing schedule in %s: %s\n", S.sc->name, sig.c_str());
